@@ -51,6 +51,11 @@ UNITS = [
     Unit('concatenate.bp', 'c04', 'verif_concatenate', mode='bp', unwind=10, unwind_loops=HN, clause='concatenate: operand selection and source index'),
     Unit('shape_repeat.uf', 'c04', 'verif_shape_repeat', mode='uf', unwind=10, unwind_loops=HN, clause='repeat: shape'),
     Unit('repeat.uf', 'c04', 'verif_repeat', mode='uf', unwind=10, unwind_loops=HN, clause='repeat: source index'),
+    Unit('shape_repeat_each.bp', 'c04', 'verif_shape_repeat_each', mode='bp', unwind=10, unwind_loops=HN, clause='repeat (per-element repeats): shape[axis] = sum(repeats)'),
+    Unit('repeat_each.bp', 'c04', 'verif_repeat_each', mode='bp', unwind=10, unwind_loops=HN, object_bits=12, clause='repeat (per-element repeats): source index = the position j with cumsum[j-1] <= i < cumsum[j]'),
+    Unit('repeat_each.bounded', 'c04', 'verif_repeat_each', mode='bp', plain=True, unwind=10, unwind_loops={'.': 9}, object_bits=12, timeout=900,
+         bounded='rank <= 8, repeats arrays of length <= 8 (utl::static_vector<size_t,8>): every loop unwound to its capacity bound; same contract as repeat_each.bp, independent of how the search along the axis is coded',
+         clause='repeat (per-element repeats): source index = the position j with cumsum[j-1] <= i < cumsum[j]'),
     Unit('shape_take.bp', 'c04', 'verif_shape_take', mode='bp', unwind=10, unwind_loops=HN, clause='take: shape'),
     Unit('take.bp', 'c04', 'verif_take', mode='bp', unwind=10, unwind_loops=HN, clause='take: source index (incl. negative entries of the index list)'),
     Unit('shape_resize.bp', 'c04', 'verif_shape_resize', mode='bp', unwind=10, unwind_loops=HN, clause='resize: shape / validity'),
